@@ -193,7 +193,7 @@ def evaluate(obs):
         if len(before) != njobs:
             viol.append(V(f'{x.label}: notified done after {len(before)} of {njobs} jobs had been accounted for by workers', sym='done-before-jobs',
                           **mech))
-        if d.get('jobs_left', 0) != 0 and exp:
+        if d.get('jobs_left') not in (0, None) and exp:
             viol.append(V(f'{x.label}: notified done with jobs_to_complete={d.get("jobs_left")}', sym='done-before-jobs', **mech))
         if d.get('temps'):
             viol.append(V(f'{x.label}: temporary file {d["temps"]} still present at the moment the download was notified done '
@@ -263,6 +263,9 @@ def run_inproc(spec):
                 r['violations'] = [V(f'process-pool protocol deadlocked in "{obs.hang_what}": {e2e.lib_frames(obs.stacks)}', sym='deadlock',
                                      exit=spec.get('exit'))]
             return r
+        if obs.world.s3.harness_errors:
+            return {'verdict': 'inconclusive', 'key': None, 'violations': [], 'stats': {'harness_error': 1},
+                    'summary': {'harness_errors': obs.world.s3.harness_errors[:3]}}
         viol, stats, nontrivial, summary = evaluate(obs)
         import hashlib
 
